@@ -3,7 +3,9 @@ package props
 import (
 	"fmt"
 	"go/token"
+	"go/types"
 	"regexp"
+	"sort"
 	"strings"
 
 	"golang.org/x/tools/go/ssa"
@@ -25,6 +27,7 @@ func runC09Gaps2(c *eng.Ctx) {
 	c09g2LeaderVerdict(c)
 	c09g2ApplyState(c)
 	c09g2SnapshotComplete(c)
+	c09g2Decodes(c)
 }
 
 func c09g2Unconv(v ssa.Value) ssa.Value {
@@ -929,6 +932,229 @@ func c09g2SnapshotComplete(c *eng.Ctx) {
 			c.OK(rcv, site, rcv.Pos(), "same bucket on both sides")
 		} else {
 			c.Violation(rcv, site, rcv.Pos(), "writeTo copies a different set of buckets than the receiver fills", nil)
+		}
+	}
+}
+
+// c09g2Decodes (C09.11): a replica installed from a snapshot (and one reading
+// its own bolt file back) holds byte-identical state only if every record is
+// decoded on its own: a protobuf decode in package raft either resets the
+// message (plain proto.Unmarshal; UnmarshalOptions whose Merge field is not
+// set), or - where it merges into the message it is given (Merge set, or not
+// decidable; proto.Merge) - the message is freshly allocated or Reset for each
+// record. The snapshot sink decodes the whole stream into ONE StorageEntry, so
+// a merging decode lets a record with an empty value inherit the previous
+// record's value. Both ends of the snapshot framing are held to floors.
+func c09g2Decodes(c *eng.Ctx) {
+	const decPat = `protobuf/proto\.Unmarshal$|protobuf/proto\.UnmarshalOptions\)\.Unmarshal(State)?$|protobuf/proto\.Merge$`
+	type site struct {
+		fn *ssa.Function
+		cl ssa.CallInstruction
+	}
+	var sites []site
+	for _, f := range c.P.Funcs {
+		if !eng.InPkg(f, "raft") {
+			continue
+		}
+		for _, cl := range eng.Calls(f, decPat) {
+			sites = append(sites, site{f, cl})
+		}
+	}
+	sort.Slice(sites, func(i, j int) bool { return sites[i].cl.Pos() < sites[j].cl.Pos() })
+	// may the decode merge into what the message already holds?
+	merges := func(cl ssa.CallInstruction) (bool, string) {
+		n := eng.CalleeName(cl.Common())
+		switch {
+		case strings.HasSuffix(n, "proto.Unmarshal"):
+			return false, "proto.Unmarshal resets the message before decoding"
+		case strings.HasSuffix(n, "proto.Merge"):
+			return true, "proto.Merge merges into the destination"
+		}
+		// UnmarshalOptions{...}.Unmarshal: the options value is the receiver; look at the Merge field of a locally built literal
+		opts := cl.Common().Args[0]
+		ld, ok := opts.(*ssa.UnOp)
+		var al *ssa.Alloc
+		if ok && ld.Op == token.MUL {
+			al, _ = ld.X.(*ssa.Alloc)
+		}
+		if al == nil || al.Referrers() == nil {
+			return true, "the decode options are not a literal built here (" + eng.ExprDeep(opts) + "): whether they merge is not decidable"
+		}
+		for _, r := range *al.Referrers() {
+			fa, isFa := r.(*ssa.FieldAddr)
+			if !isFa || eng.FieldVar(fa) == nil || eng.FieldVar(fa).Name() != "Merge" || fa.Referrers() == nil {
+				continue
+			}
+			for _, fr := range *fa.Referrers() {
+				if st, isSt := fr.(*ssa.Store); isSt && st.Addr == ssa.Value(fa) && eng.Expr(st.Val) != "false" {
+					return true, "UnmarshalOptions.Merge = " + eng.Expr(st.Val)
+				}
+			}
+		}
+		return false, "UnmarshalOptions without Merge resets the message before decoding"
+	}
+	// the message operand of a decode
+	msgOf := func(cl ssa.CallInstruction) ssa.Value {
+		a := cl.Common().Args
+		if strings.HasSuffix(eng.CalleeName(cl.Common()), "proto.Merge") {
+			return a[0]
+		}
+		return a[len(a)-1]
+	}
+	// v, used as the message of call `at` in fn, is a fresh message for every execution of `at`:
+	// every origin is an allocation made in fn itself, and `at` cannot be reached again from `at`
+	// without passing that allocation or a Reset of the message
+	freshAt := func(fn *ssa.Function, at ssa.Instruction, v ssa.Value) (bool, string) {
+		var barriers []ssa.Instruction
+		for _, o := range eng.Origins(v) {
+			al, isAlloc := o.Val.(*ssa.Alloc)
+			if !isAlloc || al.Parent() != fn {
+				return false, o.Kind + ":" + o.Desc
+			}
+			barriers = append(barriers, al)
+		}
+		if len(barriers) == 0 {
+			return false, "no origin"
+		}
+		barriers = append(barriers, instrsOf(eng.Calls(fn, `protobuf/proto\.Reset$|\)\.Reset$`))...)
+		again := func(in ssa.Instruction) bool { return in == at }
+		if h := eng.Reach(eng.Query{Fn: fn, StartAfter: at, Barriers: barriers, Target: again}); h != nil {
+			return false, "the same message is decoded into again on the next iteration"
+		}
+		return true, ""
+	}
+	c.Clause("R12", "C09.11")
+	nth := map[*ssa.Function]int{}
+	for _, s := range sites {
+		nth[s.fn]++
+		key := fmt.Sprintf("record decoded on its own{decode %d of %s}", nth[s.fn], eng.FuncName(s.fn))
+		mg, why := merges(s.cl)
+		if !mg {
+			c.OK(s.fn, key, s.cl.Pos(), why)
+			continue
+		}
+		msg := msgOf(s.cl)
+		// the message is the decoder's own, or handed in by its callers
+		type use struct {
+			fn *ssa.Function
+			at ssa.Instruction
+			v  ssa.Value
+		}
+		var uses []use
+		if p, isParam := c09g2Unconv(msg).(*ssa.Parameter); isParam {
+			pi := -1
+			for i, q := range s.fn.Params {
+				if q == p {
+					pi = i
+				}
+			}
+			recv := s.fn.Signature.Recv()
+			for _, g := range c.P.Funcs {
+				for _, ci := range nfAllCalls(g) {
+					cc := ci.Common()
+					switch {
+					case cc.IsInvoke():
+						if recv == nil || cc.Method.Name() != s.fn.Name() || pi < 1 {
+							continue
+						}
+						it, isI := cc.Value.Type().Underlying().(*types.Interface)
+						if !isI || !types.Implements(recv.Type(), it) || pi-1 >= len(cc.Args) {
+							continue
+						}
+						uses = append(uses, use{g, ci, cc.Args[pi-1]})
+					default:
+						if nc := nfCallOf(ci); nc.Name == eng.FuncName(s.fn) && pi < len(nc.Args) {
+							uses = append(uses, use{g, ci, nc.Args[pi]})
+						}
+					}
+				}
+			}
+			if len(uses) == 0 {
+				c.Undecided(s.fn, key, s.cl.Pos(), why+"; the message is a parameter and no caller was found: whether it is fresh per record cannot be evaluated")
+				continue
+			}
+		} else {
+			uses = []use{{s.fn, s.cl, msg}}
+		}
+		bad := ""
+		for _, u := range uses {
+			if ok, what := freshAt(u.fn, u.at, c09g2Unconv(u.v)); !ok {
+				bad = eng.FuncName(u.fn) + " passes " + eng.ExprDeep(u.v) + " (" + what + ")"
+			}
+		}
+		if bad != "" {
+			c.Violation(s.fn, key, s.cl.Pos(), why+", and the message is not fresh for every record: "+bad+". Fields a record leaves empty keep the previous record's content, so the decoded state differs from what was written", nil)
+		} else {
+			c.OK(s.fn, key, s.cl.Pos(), why+"; every caller hands in a freshly allocated / Reset message")
+		}
+	}
+	c.Floor(nil, "protobuf decodes in package raft", len(sites), 8)
+
+	// the two ends of the snapshot framing
+	c.Clause("R8", "C09.11")
+	msgType := func(v ssa.Value) string {
+		if mi, ok := v.(*ssa.MakeInterface); ok {
+			v = mi.X
+		}
+		return v.Type().String()
+	}
+	var wTypes, rTypes []string
+	nW, nR := 0, 0
+	if wt := c.Fn("raft.(*FSM).writeTo"); wt != nil {
+		fs := append([]*ssa.Function{wt}, eng.Closures(wt)...)
+		for _, f := range fs {
+			nW += len(eng.Calls(f, `^raft\.NewDelimitedWriter$`))
+			for _, w := range eng.Calls(f, `\.WriteMsg$`) {
+				a := w.Common().Args
+				wTypes = append(wTypes, msgType(a[len(a)-1]))
+			}
+		}
+		c.Floor(wt, "delimited writer of the snapshot stream", nW, 1)
+	}
+	if rd := c.Fn("raft.(*BoltSnapshotSink).writeBoltDBFile"); rd != nil {
+		var walk func(f *ssa.Function)
+		walk = func(f *ssa.Function) {
+			nR += len(eng.Calls(f, `^raft\.NewDelimitedReader$`))
+			for _, r := range eng.Calls(f, `\.ReadMsg$`) {
+				a := r.Common().Args
+				rTypes = append(rTypes, msgType(a[len(a)-1]))
+			}
+			for _, a := range f.AnonFuncs {
+				walk(a)
+			}
+		}
+		walk(rd)
+		c.Floor(rd, "delimited reader of the snapshot stream", nR, 1)
+		site := "snapshot writer and reader agree on the record type"
+		wT, rT := uniqStr(wTypes), uniqStr(rTypes)
+		if len(wT) == 1 && len(rT) == 1 && wT[0] == rT[0] {
+			c.OK(rd, site, rd.Pos(), wT[0])
+		} else {
+			c.Violation(rd, site, rd.Pos(), "FSM.writeTo writes "+strings.Join(wT, ", ")+" but the snapshot sink reads "+strings.Join(rT, ", "), nil)
+		}
+	}
+	// the frame: length prefix + one marshalled message, read back as length prefix + exactly that many bytes + one decode
+	for _, pr := range []struct {
+		fn   string
+		must []string
+	}{
+		{"raft.(*varintWriter).WriteMsg", []string{`^encoding/binary\.PutUvarint$`, `protobuf/proto\.Marshal`}},
+		{"raft.(*varintReader).ReadMsg", []string{`^encoding/binary\.ReadUvarint$`, `^io\.ReadFull$`, decPat}},
+	} {
+		f := c.Fn(pr.fn)
+		if f == nil {
+			continue
+		}
+		missing := ""
+		for _, m := range pr.must {
+			if len(eng.Calls(f, m)) == 0 {
+				missing = m
+			}
+		}
+		if missing != "" {
+			c.Violation(f, "length-delimited frame", f.Pos(), "no call matching "+missing+": the two ends of the snapshot framing no longer agree", nil)
+		} else {
+			c.OK(f, "length-delimited frame", f.Pos(), "uvarint length + one protobuf message")
 		}
 	}
 }
